@@ -1,0 +1,43 @@
+//go:build verif
+
+package client
+
+// Read-only size accessors for the verification harness (build tag verif only; hook h2 of /verif/DESIGN.md).
+
+// VerifTableSizes is the number of entries in every per-exchange table of a connection. -1 = not available.
+type VerifTableSizes struct {
+	Token   int // tokenHandlerContainer
+	Mid     int // midHandlerContainer
+	Cache   int // responseMsgCache (default implementation only)
+	Lock    int // msgIDMutex
+	BwRecv  int // blockwise receivingMessagesCache
+	BwSend  int // blockwise sendingMessagesCache
+	Obs     int // observation table
+	Limiter int // limitParallelRequests endpoint queues
+}
+
+// VerifLen returns the number of per-key lock entries.
+func (m *MutexMap) VerifLen() int {
+	m.ml.Lock()
+	defer m.ml.Unlock()
+	return len(m.ma)
+}
+
+// VerifSizes returns the current table sizes.
+func (cc *Conn) VerifSizes() VerifTableSizes {
+	s := VerifTableSizes{
+		Token:   cc.tokenHandlerContainer.Length(),
+		Mid:     cc.midHandlerContainer.Length(),
+		Cache:   -1,
+		Lock:    cc.msgIDMutex.VerifLen(),
+		Obs:     cc.observationHandler.VerifLen(),
+		Limiter: cc.Client.LimitParallelRequests.VerifEntries(),
+	}
+	if mc, ok := cc.responseMsgCache.(*messageCache); ok {
+		s.Cache = mc.c.Length()
+	}
+	if cc.blockWise != nil {
+		s.BwRecv, s.BwSend = cc.blockWise.VerifCacheSizes()
+	}
+	return s
+}
